@@ -13,10 +13,12 @@
 //         err <InternalError id>:<message>      the tokenizer rejected the input
 //   prep <hex of space separated tokens>
 //       Tokenizer::createLinks + Tokenizer::prepareTernaryOpForAST on exactly these tokens; output
-//         ok <space separated token strings after the pass>
+//         ok <token strings before the pass> ## <token strings after the pass>
 //   ast <c|cpp> <hex of space separated tokens, names starting with v get varId>
-//       createLinks, prepareTernaryOpForAST, TokenList::createAst on exactly these tokens (no other pass);
-//       same output as `full` (all tokens).
+//       combineOperators, simplifySpaceshipOperator, createLinks, prepareTernaryOpForAST, TokenList::createAst on exactly
+//       these tokens (no other pass);
+//       same output as `full` (all tokens), followed by ` # <hex of the space separated token strings before
+//       prepareTernaryOpForAST>` (the lexer decides how `- -` / `--` etc. are split, so the model is fed these).
 #include "common.h"
 #include "token.h"
 #include "tokenlist.h"
@@ -44,6 +46,7 @@ namespace {
         using Tokenizer::createLinks2;
         using Tokenizer::prepareTernaryOpForAST;
         using Tokenizer::combineOperators;
+        using Tokenizer::simplifySpaceshipOperator;
     };
 }
 
@@ -127,8 +130,11 @@ int main() {
                     out = "err createTokens";
                 else {
                     tokenizer.createLinks();
-                    tokenizer.prepareTernaryOpForAST();
                     out = "ok";
+                    for (const Token* t = tokenizer.tokens(); t; t = t->next())
+                        out += " " + t->str();
+                    out += " ##";
+                    tokenizer.prepareTernaryOpForAST();
                     for (const Token* t = tokenizer.tokens(); t; t = t->next())
                         out += " " + t->str();
                 }
@@ -141,16 +147,25 @@ int main() {
                     out = "err createTokens";
                 else {
                     tokenizer.combineOperators();
+                    tokenizer.simplifySpaceshipOperator();
                     tokenizer.createLinks();
                     nonneg int id = 0;
                     for (Token* t = tokenizer.list.front(); t; t = t->next())
                         if (t->isName() && t->str()[0] == 'v' && t->str().size() > 1 && std::isdigit(static_cast<unsigned char>(t->str()[1])))
                             t->varId(++id);
                     tokenizer.list.front()->assignIndexes();
+                    std::string pre;
+                    for (const Token* t = tokenizer.tokens(); t; t = t->next())
+                        pre += (pre.empty() ? "" : " ") + t->str();
                     tokenizer.prepareTernaryOpForAST();
                     tokenizer.list.front()->assignIndexes();
-                    tokenizer.list.createAst();
-                    out = render(tokenizer.tokens(), nullptr);
+                    try {
+                        tokenizer.list.createAst();
+                        out = render(tokenizer.tokens(), nullptr);
+                    } catch (const InternalError& e) {
+                        out = "err " + e.id + ":" + clean(e.errorMessage);
+                    }
+                    out += " # " + hex(pre);
                 }
             } else {
                 out = "bad-op";
